@@ -141,8 +141,36 @@ class CaseLog:
             pts.append(dict(verdict.model))
         pts.extend(candidates)
         if sampler is not None:
-            for _ in range(nrandom):
-                pts.append(sampler(self.rng))
+            rnd_pts = [sampler(self.rng) for _ in range(nrandom)]
+            # the solver's model often lies outside the range a replay accepts, while what makes it a counterexample is a
+            # degenerate value (an input that is exactly zero, two inputs that coincide): transfer that pattern onto sampled points
+            if verdict.model:
+                zeros = {k: v for k, v in verdict.model.items() if v == 0}
+                eqs = []
+                keys = sorted(k for k in verdict.model if not k.startswith(("sqrt", "exp", "cos", "sin", "log", "atan", "cbrt")))
+                for i, k1 in enumerate(keys):
+                    for k2 in keys[i + 1:]:
+                        if verdict.model[k1] == verdict.model[k2] and verdict.model[k1] != 0:
+                            eqs.append((k1, k2))
+                variants = []
+                for n, k in enumerate(sorted(zeros)):
+                    p = rnd_pts[n % len(rnd_pts)]
+                    if k in p and p[k] != 0:
+                        q = dict(p)
+                        q[k] = zeros[k]
+                        variants.append(q)  # one degenerate input at a time ...
+                for n, (k1, k2) in enumerate(eqs):
+                    p = rnd_pts[n % len(rnd_pts)]
+                    if k1 in p and k2 in p and p[k1] != p[k2]:
+                        q = dict(p)
+                        q[k2] = q[k1]
+                        variants.append(q)
+                if len(zeros) > 1:
+                    q = dict(rnd_pts[0])
+                    q.update({k: v for k, v in zeros.items() if k in q})
+                    variants.append(q)  # ... and all vanishing inputs together
+                pts.extend(variants[:8])
+            pts.extend(rnd_pts)
         if replay is not None:
             for p in pts:
                 script = replay_script(replay[0], replay[1], p, **(replay[2] if len(replay) > 2 else {}))
